@@ -47,6 +47,11 @@ def gen_any(rng, m, db):
     return [b"DBSIZE"]
 
 
+def select_word(rng):
+    """Command names are case-insensitive: SELECT in the spellings clients use."""
+    return rng.choice([b"SELECT", b"SELECT", b"select", b"Select", b"sElEcT"])
+
+
 def history(d, srv, rng, res, loaded):
     conns = [Conn(srv, i) for i in range(rng.randrange(2, 5))]
     m = d.model
@@ -120,7 +125,34 @@ def history(d, srv, rng, res, loaded):
             cn = rng.choice(conns)
             r = rng.random()
             if r < 0.08:
-                step_select(cn, [b"SELECT", rng.choice(SELECT_ARGS)] if rng.random() < 0.95 else [b"SELECT"])
+                step_select(cn, [select_word(rng), rng.choice(SELECT_ARGS)] if rng.random() < 0.95 else [b"SELECT"])
+            elif r < 0.14:
+                # one write: SELECT followed by commands (and maybe another SELECT): each command runs in the
+                # database selected by the SELECTs in front of it, also when they arrive in the same read
+                batch = [[select_word(rng), rng.choice([b"0", b"1", b"2", b"15"])]]
+                for _j in range(rng.randrange(1, 4)):
+                    a = gen_any(rng, m, cn.db)
+                    if a[0].upper() in (b"BLPOP", b"BRPOP", b"SELECT"):
+                        a = [b"DBSIZE"]
+                    batch.append(a)
+                    if rng.random() < 0.25:
+                        batch.append([select_word(rng), rng.choice([b"0", b"3", b"15"])])
+                log.append([b"c%d@db%d" % (cn.i, cn.db), b"<one write>"] + [b" ".join(x)[:50] for x in batch])
+                acts = cn.c.pipeline(batch)
+                res.evaluations += len(batch)
+                res.cell("pipelined-select", "db%s" % ("0" if cn.db == 0 else "N"))
+                for a, act in zip(batch, acts):
+                    if a[0].upper() == b"SELECT":
+                        if act != OK:
+                            diverge("select/valid-refused", "pipelined SELECT %s -> %s" % (resp.show(a[1]), resp.show(act)))
+                        cn.db = int(a[1])
+                        continue
+                    exp = m.apply(cn.db, a)
+                    if not matches(exp, act):
+                        diverge("reply/pipelined-after-select/%s" % a[0].upper().decode("latin1"),
+                                "conn %d sent %s in one write: reply to %s (model db %d) -> %s, expected %r" % (
+                                    cn.i, resp.show(batch, 30), resp.show(a), cn.db, resp.show(act), exp))
+                verify_db(cn, "after-pipelined-select")
             elif r < 0.50:
                 step_direct(cn, gen_any(rng, m, cn.db))
             elif r < 0.56:
@@ -148,7 +180,7 @@ def history(d, srv, rng, res, loaded):
                 cmds = []
                 for _j in range(k):
                     if rng.random() < 0.15:
-                        cmds.append([b"SELECT", rng.choice([b"0", b"1", b"3", b"15", b"16"])])
+                        cmds.append([select_word(rng), rng.choice([b"0", b"1", b"3", b"15", b"16"])])
                     else:
                         a = gen_any(rng, m, cn.db)
                         if a[0].upper() in (b"BLPOP", b"BRPOP"):
@@ -159,12 +191,12 @@ def history(d, srv, rng, res, loaded):
                 qs = [cn.c.cmd(*a) for a in cmds]
                 ex = cn.c.cmd("EXEC")
                 res.evaluations += 1 + len(cmds)
-                has_select = any(a[0] == b"SELECT" for a in cmds)
+                has_select = any(a[0].upper() == b"SELECT" for a in cmds)
                 res.cell("multi", "with-select" if has_select else "plain", "db%s" % ("0" if cn.db == 0 else "N"))
                 if r0 != OK or any(q != QUEUED for q in qs) or not isinstance(ex, list) or len(ex) != len(cmds):
                     diverge("multi/shape", "MULTI %s EXEC -> %r %s %s" % (resp.show(cmds, 30), r0, resp.show(qs), resp.show(ex)))
                 for a, act in zip(cmds, ex):
-                    if a[0] == b"SELECT":
+                    if a[0].upper() == b"SELECT":
                         idx = a[1]
                         if idx.isdigit() and int(idx) < 16:
                             if act != OK:
